@@ -386,6 +386,14 @@ class Check:
 
 def run_main(prop, level, fn):
     c = Check(prop, level, sys.argv[1:])
+    # wall-clock watchdog over the whole check: firing is a harness failure (inconclusive), never a verdict on carquet
+    import signal
+    limit = int(os.environ.get('VERIF_WALL_LIMIT', '3600' if c.tier == 'quick' else '43200'))
+
+    def _alarm(signum, frame):
+        raise HarnessError('check exceeded its wall-clock watchdog of %d s' % limit)
+    signal.signal(signal.SIGALRM, _alarm)
+    signal.alarm(limit)
     try:
         fn(c)
     except HarnessError as e:
